@@ -286,6 +286,43 @@ def api_counts(ps, frames):
     return res, calls
 
 
+def oneshot_counts(ps, frames):
+    """Does a ONE-SHOT waiter registered with ps react (its future gets the command) to each frame - with an application
+    callback for the same command types registered BEFORE it on the same ZBOSS object (a bystander that matches
+    everything of those types and must not change what the waiter does)?  One fresh ZBOSS object per frame."""
+    import asyncio
+    loop = asyncio.new_event_loop()
+    res = []
+    try:
+        for fr in frames:
+            api = mk_api()
+
+            async def go(api=api, fr=fr):
+                seen = []
+                for p in ps:
+                    if type(p) not in seen:
+                        seen.append(type(p))
+                api.register_indication_listeners([cls(partial=True) for cls in seen], lambda cmd: None)
+                fut = api.wait_for_responses(ps)
+                try:
+                    api.frame_received(fr)
+                except Exception as e:  # noqa
+                    return "exc:%s" % type(e).__name__
+                await asyncio.sleep(0)
+                r = 1 if (fut.done() and not fut.cancelled()) else 0
+                if not fut.done():
+                    fut.cancel()
+                await asyncio.sleep(0)
+                return r
+            try:
+                res.append(loop.run_until_complete(go()))
+            except Exception as e:  # noqa
+                res.append("exc:%s" % type(e).__name__)
+    finally:
+        loop.close()
+    return res
+
+
 def check_listener(ctx, pats, masks, cmds, cmd_targets, lists, bucket):
     """cmds: full commands (delivered as frames); cmd_targets[j] = index of cmds[j] in the mask bit order."""
     chk, enc = ctx.chk, ctx.enc
@@ -314,6 +351,19 @@ def check_listener(ctx, pats, masks, cmds, cmd_targets, lists, bucket):
             im = [str(x) for x in res]
         if im != mouts and "listener" not in ctx.bad:
             ctx.tie("listener", {"stream": "listener", "patterns": [describe(p) for p in ps], "impl": im, "model": mouts}, im, mouts)
+        # the same collection as a one-shot waiter, behind a bystander callback (sampled: every third list, first 3 frames)
+        if l and (k // max(1, len(cmds))) % 3 == 0 and "listener-oneshot" not in ctx.mon:
+            sub = list(range(min(3, len(cmds))))
+            oc = oneshot_counts(ps, [frames[j] for j in sub])
+            for j, got1 in zip(sub, oc):
+                exp1 = 1 if (inp_mask >> cmd_targets[j]) & 1 else 0
+                chk.evaluations += 1
+                chk.count(bucket + ":oneshot-behind-callback")
+                if got1 != exp1 and "listener-oneshot" not in ctx.mon:
+                    ctx.monitor("listener-oneshot", "a one-shot waiter registered with %s (after an application callback for the same "
+                                "command type) reacted %s time(s) to %s; %d expected" % ([str(p) for p in ps], got1, cmds[j], exp1),
+                                {"stream": "listener", "patterns": [describe(p) for p in ps], "command": describe(cmds[j]),
+                                 "reacted": got1, "expected": exp1}, key="C17:oneshot-behind-callback")
         for j, q in enumerate(cmds):
             if not l:
                 break          # no patterns: the listener is refused (ValueError); nothing the property constrains
